@@ -86,12 +86,14 @@ def aliasing_rejected(second, a_first, a_second, f_first, s0, d0, h0):
         pv = ax2
       seen.setdefault(id(x), set()).add(_norm(pv))
   inconsistent = any(len(v) > 1 for v in seen.values())
-  node_prefixes = {}
+  # through the entry point the transforms use (prefix broadcasting included)
+  from flax.nnx import graph as G
   try:
-    for node, pref in zip(args, prefixes):
-      extract.check_consistent_aliasing(node, pref, node_prefixes=node_prefixes)
-  except ValueError:
-    return inconsistent
+    with G.update_context('c08'):
+      extract.to_tree(args, prefix=prefixes, split_fn=IT._vmap_split_fn,
+                      ctxtag='c08')
+  except ValueError as e:
+    return inconsistent and 'Inconsistent aliasing' in str(e)
   return not inconsistent
 
 
@@ -157,6 +159,28 @@ class GradEnv:
   def __exit__(self, *a):
     AD.jax = self.saved
     return False
+
+
+def grad_two_arguments(fi, order, x):
+  """argnums as a sequence mixing DiffState and plain ints: every argument is
+  differentiated by ITS OWN filter (plain int = Param), in either order"""
+  o1 = GR.build([], 1, 2, 3)
+  o2 = GR.build([], 4, 5, 6)
+  m1, m2 = o1['M0'], o2['M0']
+  mk, ref = pick(FILT, fi)
+
+  def loss_fn(a, b, xx):
+    return 0
+  argn = (nnx.DiffState(0, mk()), 1) if order == 0 else (1, nnx.DiffState(0, mk()))
+  with GradEnv():
+    g = nnx.grad(loss_fn, argnums=argn)(m1, m2, x)
+  g_first, g_second = (g[0], g[1]) if order == 0 else (g[1], g[0])
+  _, _, v1 = GR.canon(m1)
+  _, _, v2 = GR.canon(m2)
+  want1 = {p for p, v in v1.items() if ref(p, v)}
+  want2 = {p for p, v in v2.items() if isinstance(v, nnx.Param)}
+  return ({p for p, _ in nnx.to_flat_state(g_first)} == want1
+          and {p for p, _ in nnx.to_flat_state(g_second)} == want2)
 
 
 def grad_wrt_routing(fi, use_diffstate, s0, d0, h0, x):
@@ -227,6 +251,8 @@ def obligations(tier):
               **e), split=('second', 'f_first'), timeout=600, funcs=F,
          bounds='two arguments (second = child of the first, or separate), base '
                 'graph + 1 aliasing edge, all axis pairs'),
+      Ob('grad_two_arguments', grad_two_arguments,
+         dict(fi=I(0, nf), order=I(0, 1), x=I(-2, 2)), timeout=600, funcs=F),
       Ob('grad_wrt_routing', grad_wrt_routing,
          dict(fi=I(0, nf), use_diffstate=B(), **e, x=I(-2, 2)), split=('fi',),
          timeout=600, funcs=F),
